@@ -3,12 +3,13 @@
    nat stay extracted inductives. No Extract Constant / Extract Inductive of our own. *)
 From Coq Require Extraction.
 From Coq Require Import ExtrOcamlBasic.
-From RN Require Import Base.Bytes Model.Edits Model.Serde Model.StyleDef Model.CaseModel Gen.GenStyles Gen.GenAcronyms Model.Fs Model.ApplyModel Model.UndoModel Model.Patch Model.Lock Model.History Model.Matcher Model.Hunks Model.Renames Model.ClapDef Model.Clap Model.Wrappers Gen.GenCli Gen.GenWrappers Model.Shapes Model.ShapesTie Gen.GenShapes Model.Constraints Model.Compound.
+From RN Require Import Base.Bytes Model.Edits Model.Serde Model.StyleDef Model.CaseModel Gen.GenStyles Gen.GenAcronyms Model.Fs Model.ApplyModel Model.UndoModel Model.Patch Model.Lock Model.History Model.Matcher Model.Hunks Model.Renames Model.ClapDef Model.Clap Model.Wrappers Gen.GenCli Gen.GenWrappers Model.Shapes Model.ShapesTie Gen.GenShapes Model.Constraints Model.Compound Model.Enhanced.
 
 (* uniquely named entry points where two models use the same short name *)
 Definition hist_step := History.step.
 Definition clap_accepts := accepts gen_globals gen_cli.
 Definition compatible_styles := filter_compatible gen_acronyms.
+Definition ident_find_all := Enhanced.find_all.
 
 Extraction Language OCaml.
 Extraction "model.ml"
@@ -22,5 +23,5 @@ Extraction "model.ml"
   undo_core undo_steps rewrite_headers rewrite_headers_old diffy_body split_lines
   crash_prefix apply_core spec_apply no_fault one_fault user_view fs_eqb sort_renames final_path
   clap_accepts all_opts gen_builders
-  enc_plan_generic conforms_named conforms_expect compat_named compat_expect rdef_keys compatible_styles find_compound_variants
+  enc_plan_generic conforms_named conforms_expect compat_named compat_expect rdef_keys compatible_styles find_compound_variants ident_find_all find_enhanced_matches
   gen_acronyms gen_all_styles gen_default_styles gen_vm_core_default gen_vm_scanner_default.
